@@ -25,6 +25,10 @@ Definition with_password (password sc : list N) : val :=
 
 Definition dispatch_C02 (f : string) (args : list val) : val :=
   match args with
+  | [] =>
+      (* the models take the time stamp as one input: the clock is read once in createNTLMv2Blob, which
+         calculateNTLMv2Response calls once; nowhere else in ntlm.go; once in ntlmv2.Hash *)
+      if f =? "c02.fact.clock_reads" then VL [VN 1%Z; VN 1%Z; VN 0%Z; VN 1%Z] else vunknown
   | [VN n] =>
       if f =? "ntlmv1.parity_bit" then vN (parity_bit (Z.to_N n)) else vunknown
   | [VB k] =>
